@@ -51,6 +51,13 @@ func (w *Writer) Emit(ev Ev) {
 	w.w.WriteByte('\n')
 }
 
+// Flush writes buffered events to the file (drivers whose code under test may abort the process).
+func (w *Writer) Flush() error {
+	w.mu.Lock()
+	defer w.mu.Unlock()
+	return w.w.Flush()
+}
+
 func (w *Writer) Close() error {
 	w.mu.Lock()
 	defer w.mu.Unlock()
